@@ -145,10 +145,10 @@ fn ggsw_cells(g: &GGSW<Vec<u8>>, dnum: usize, cols: usize) -> Vec<VecZnx<Vec<u8>
     v
 }
 
-type GgswP<B> = GGSWPrepared<DeviceBuf<B>, B>;
+pub type GgswP<B> = GGSWPrepared<DeviceBuf<B>, B>;
 
 /// fresh GGSW(m2) in the key layout of the case, prepared, with its exact cell errors
-fn build_ggsw<B: FullBackend>(m: &Module<B>, c: &Case, sk: &GLWESecret<Vec<u8>>, m2: &[i64], salt: u64, scratch: &mut ScratchOwned<B>) -> Result<(GgswP<B>, KeyMeta, GGSW<Vec<u8>>), String> {
+pub fn build_ggsw<B: FullBackend>(m: &Module<B>, c: &Case, sk: &GLWESecret<Vec<u8>>, m2: &[i64], salt: u64, scratch: &mut ScratchOwned<B>) -> Result<(GgswP<B>, KeyMeta, GGSW<Vec<u8>>), String> {
     let n = m.n();
     let r = c.rank_out as usize;
     let lay = GGSWLayout { n: Degree(n as u32), base2k: Base2K(c.kb as u32), k: TorusPrecision(c.key_k() as u32), rank: Rank(r as u32), dnum: Dnum(c.dnum as u32), dsize: Dsize(c.dsize as u32) };
@@ -411,7 +411,8 @@ fn run_cmux<B: FullBackend>(m: &Module<B>, c: &Case) -> Verdict {
         Err(e) => return fail(c, "ggsw_encrypt_sk", "cell-wrong", e),
     };
     let al = c.a_lay();
-    let fl = Lay { b: al.b, size: if c.skip & 1 == 0 { al.size } else { (c.rsize as usize).clamp(1, 12) } };
+    // second operand: same size, or up to two limbs shorter / longer (so that it stays near what the GGSW covers)
+    let fl = Lay { b: al.b, size: if c.skip & 1 == 0 { al.size } else { (al.size as i64 + ((c.skip >> 1) % 5) as i64 - 2).clamp(1, 16) as usize } };
     let mut t = glwe(n, al, r);
     arbitrary_glwe(&mut t, c.cls, c.seed ^ 0xA);
     let mut f = glwe(n, fl, r);
@@ -458,10 +459,14 @@ fn run_cmux<B: FullBackend>(m: &Module<B>, c: &Case) -> Verdict {
     let scale = if op == 3 && al.b != c.kb as usize { 4.0 } else { 2.0 };
     // cmux / cmux_assign form t - f in the precision of the destination: what is cut off there is multiplied by m2
     let cut = if rl.size < dl.size && op != 1 && op != 3 { 2.0 * rl.unit() * pt_l1(&m2, &s).iter().sum::<u64>() as f64 } else { 0.0 };
-    let bound = ks_bound_scaled(&meta, dl, rl, n, &pt_l1(&m2, &s), l1_sum(&s), scale) + (rl.unit() + dl.unit()) * so * 2.0 + cut;
+    let bound_for = |rl: Lay| ks_bound_scaled(&meta, dl, rl, n, &pt_l1(&m2, &s), l1_sum(&s), scale) + (rl.unit() + dl.unit()) * so * 2.0 + cut;
+    // cswap: each output keeps the precision of its own buffer
+    let out_lays: Vec<Lay> = if op == 3 { vec![al, fl] } else { vec![rl] };
+    let bound = bound_for(rl);
     let mut emax = 0f64;
     for (k, (gv, wv)) in got.iter().zip(want.iter()).enumerate() {
         let (e, i) = max_err(gv, wv);
+        let bound = bound_for(out_lays[k]);
         if e > bound {
             return fail(c, opn, "phase-error-above-gadget-bound", format!("{} output {k} coefficient {i}: |phase(res) - ((t-f)*m2 + f)| = {e:.4e} exceeds the bound {bound:.4e} (t {:?}, f {:?}, GGSW {}x{} limbs of {} bits)", M2_CLASSES[m2cls], al, fl, c.dnum, c.dsize, c.kb));
         }
@@ -478,10 +483,10 @@ fn run_cmux<B: FullBackend>(m: &Module<B>, c: &Case) -> Verdict {
 
 pub const CELL_OPS: [&str; 7] = ["ggsw_encrypt_sk", "ggsw_from_gglwe", "ggsw_expand_row", "ggsw_keyswitch", "ggsw_keyswitch_assign", "ggsw_automorphism", "ggsw_automorphism_assign"];
 
-type TskP<B> = GGLWEToGGSWKeyPrepared<DeviceBuf<B>, B>;
+pub type TskP<B> = GGLWEToGGSWKeyPrepared<DeviceBuf<B>, B>;
 
 /// tensor key GGLWE_s(s_i * s_j) in the key layout of the case, with per-i metas
-fn build_tsk<B: FullBackend>(m: &Module<B>, c: &Case, sk: &GLWESecret<Vec<u8>>, scratch: &mut ScratchOwned<B>) -> Result<(TskP<B>, Vec<KeyMeta>), String> {
+pub fn build_tsk<B: FullBackend>(m: &Module<B>, c: &Case, sk: &GLWESecret<Vec<u8>>, scratch: &mut ScratchOwned<B>) -> Result<(TskP<B>, Vec<KeyMeta>), String> {
     let n = m.n();
     let r = c.rank_out as usize;
     let lay = GGLWEToGGSWKeyLayout { n: Degree(n as u32), base2k: Base2K(c.kb as u32), k: TorusPrecision(c.key_k() as u32), rank: Rank(r as u32), dnum: Dnum(c.dnum as u32), dsize: Dsize(c.dsize as u32) };
@@ -733,10 +738,10 @@ pub fn test_cells(c0: &Case) -> Verdict {
 
 pub fn run_all(ctx: &Ctx) {
     let t = ctx.tier;
-    ctx.run_sub("glwe_external_product", t.pick(3_000, 60_000), 64, crate::c03::strategy, test_ext);
-    ctx.run_sub("matrix_external_product", t.pick(1_500, 30_000), 64, crate::c03::strategy, test_mat);
-    ctx.run_sub("cmux", t.pick(3_000, 60_000), 64, crate::c03::strategy, test_cmux);
-    ctx.run_sub("ggsw_cells", t.pick(1_500, 30_000), 64, crate::c03::strategy, test_cells);
+    ctx.run_sub("glwe_external_product", t.pick(8_000, 200_000), 64, crate::c03::strategy, test_ext);
+    ctx.run_sub("matrix_external_product", t.pick(4_000, 100_000), 64, crate::c03::strategy, test_mat);
+    ctx.run_sub("cmux", t.pick(16_000, 400_000), 64, crate::c03::strategy, test_cmux);
+    ctx.run_sub("ggsw_cells", t.pick(4_000, 100_000), 64, crate::c03::strategy, test_cells);
 }
 
 pub fn replay(ctx: &Ctx, sub: &str, case: &serde_json::Value) -> i32 {
